@@ -275,18 +275,32 @@ def row_pipeline(rep):
                     or (isinstance(n.func, ast.Attribute)
                         and n.func.attr in ("sort", "reverse")))]
     # only those acting on row lists: their operand is a list whose elements are step results
+    localdefs = {d.name: d for d in ast.walk(fn) if isinstance(d, ast.FunctionDef)
+                 and d is not fn}
+
+    def key_body(node):
+        """(parameter, returned expression) of a sort key given as a lambda or as a local
+        one-line function"""
+        if isinstance(node, ast.Lambda) and len(node.args.args) == 1:
+            return node.args.args[0].arg, node.body
+        if isinstance(node, ast.Name) and node.id in localdefs:
+            d = localdefs[node.id]
+            body = [x for x in d.body if not (isinstance(x, ast.Expr)
+                                               and isinstance(x.value, ast.Constant))]
+            if len(d.args.args) == 1 and len(body) == 1 and isinstance(body[0], ast.Return):
+                return d.args.args[0].arg, body[0].value
+        return None
     rowsort = [n for n in reorder if unparse(n.func) == "sorted" and n.args
                and isinstance(n.args[0], ast.Name)
-               and any(isinstance(k.value, ast.Lambda) for k in n.keywords)]
+               and any(k.arg == "key" and key_body(k.value) is not None for k in n.keywords)]
     if len(rowsort) != 1:
         raise AnalysisError("over_time: the sort of the per-step rows was not found")
     srt = rowsort[0]
     N = srt.args[0].id
     others = [n for n in reorder if n is not srt and N in unparse(n)]
     kw = {k.arg: k.value for k in srt.keywords}
-    key = kw.get("key")
-    ok = isinstance(key, ast.Lambda) and len(key.args.args) == 1 \
-        and unparse(key.body) == f"{key.args.args[0].arg}[temporal_key]" \
+    kb = key_body(kw.get("key"))
+    ok = kb is not None and unparse(kb[1]) == f"{kb[0]}[temporal_key]" \
         and "reverse" not in kw and not others
     rep.check(ok, "rows-move-together", f"{base}::sort",
               "the list of per-step rows must be reordered exactly once, by "
@@ -484,7 +498,16 @@ def estimate_columns(rep):
                 fname = unparse(val.func)
                 est = ptxt[2]
                 # func must be bound to `est` : func = est_functions[est]  or loop over items()
-                bound = False
+                bound = fname == f"est_functions[{est}]"
+                # D[est] inside  for est in D  (a dict of custom estimators)
+                if isinstance(val.func, ast.Subscript) and unparse(val.func.slice) == est:
+                    D = unparse(val.func.value)
+                    q = st
+                    while q is not None and q is not fn:
+                        if isinstance(q, ast.For) and unparse(q.target) == est \
+                                and unparse(q.iter) in (D, D + ".keys()"):
+                            bound = True
+                        q = getattr(q, "_parent", None)
                 for n2 in ast.walk(fn):
                     if isinstance(n2, ast.Assign) and unparse(n2.targets[0]) == fname \
                             and unparse(n2.value) == f"est_functions[{est}]":
